@@ -777,6 +777,58 @@ pub fn c16(tier: Tier) -> i32 {
     roundtrip!(common_msgs::GetAppointmentRequest { locator: vec![3; 16], signature: "q".into() }, common_msgs::GetAppointmentRequest, "GetAppointmentRequest");
     roundtrip!(common_msgs::GetSubscriptionInfoRequest { signature: "q".into() }, common_msgs::GetSubscriptionInfoRequest, "GetSubscriptionInfoRequest");
 
+    // ---- the replies the *real tower* produces for an appointment it watches and for one it has responded to (penalties
+    // with witness data, as every real penalty has): parsed with the client's code, compared with what the tower holds
+    {
+        use bitcoin::hashes::Hash;
+        let add = |u, k, b| Ev::Add { user: u, disp: k, blob: b, tsd: 42 };
+        let served = serve(
+            TowerCfg { slots: 50, duration: 400, grace: 6, txindex: false },
+            &[Ev::Register(1), add(1, 1, Blob::Valid), add(1, 2, Blob::Alt), Ev::MineP(MineSel::Txs(vec![TxName::D(1)])), Ev::MineP(MineSel::Mempool)],
+        );
+        let addr = NetAddr::new(format!("http://{}", served.front.http));
+        for (k, responded) in [(1u8, true), (2u8, false)] {
+            let dispute = crate::sim::build_tx(TxName::D(k));
+            let loc = teos_common::appointment::Locator::new(dispute.compute_txid());
+            let sig = user.sign(format!("get appointment {}", hex::encode(loc.to_vec())).as_bytes());
+            let resp: Result<client::ApiResponse<common_msgs::GetAppointmentResponse>, _> = served.front.rt.block_on(async {
+                client::process_post_response(client::post_request(&addr, Endpoint::GetAppointment, &common_msgs::GetAppointmentRequest { locator: loc.to_vec(), signature: sig.clone() }, &None).await).await
+            });
+            evals += 1;
+            distinct.insert(format!("real-tower-get|{k}"));
+            match resp {
+                Ok(client::ApiResponse::Response(got)) => match got.appointment_data.and_then(|d| d.appointment_data) {
+                    Some(common_msgs::appointment_data::AppointmentData::Tracker(t)) if responded => {
+                        let penalty = crate::sim::build_tx(TxName::P(k));
+                        let raw_ok = bitcoin::consensus::serialize(&penalty) == t.penalty_rawtx;
+                        let from_raw: Option<bitcoin::Transaction> = bitcoin::consensus::deserialize(&t.penalty_rawtx).ok();
+                        if t.dispute_txid != dispute.compute_txid().to_raw_hash().to_byte_array().to_vec()
+                            || t.penalty_txid != penalty.compute_txid().to_raw_hash().to_byte_array().to_vec()
+                            || !raw_ok
+                            || from_raw.map(|p| p.compute_txid().to_raw_hash().to_byte_array().to_vec()) != Some(t.penalty_txid.clone())
+                        {
+                            fail(
+                                "wire:client-parsed-different-values:get_appointment:real-tower:responded",
+                                format!("dispute_txid {} penalty_txid {} (the tower holds dispute {} penalty {}; raw penalty as held: {raw_ok})", hex::encode(&t.dispute_txid), hex::encode(&t.penalty_txid), dispute.compute_txid(), penalty.compute_txid()),
+                                &run,
+                            );
+                        }
+                        if got.status != 2 {
+                            fail("wire:status-name:real-tower", format!("responded appointment reported with status {}", got.status), &run);
+                        }
+                    }
+                    Some(common_msgs::appointment_data::AppointmentData::Appointment(a)) if !responded => {
+                        if a.locator != loc.to_vec() || a.encrypted_blob != crate::world::make_blob(k, Blob::Alt) || a.to_self_delay != 42 || got.status != 1 {
+                            fail("wire:client-parsed-different-values:get_appointment:real-tower:watched", format!("{a:?} status {}", got.status), &run);
+                        }
+                    }
+                    other => fail("wire:client-parsed-different-values:get_appointment:real-tower:shape", format!("appointment {k} (responded: {responded}): {other:?}"), &run),
+                },
+                other => fail("wire:client-rejects-valid-reply:get_appointment:real-tower", format!("{other:?}"), &run),
+            }
+        }
+    }
+
     run.set("evaluations", json!(evals));
     run.set("distinct_nontrivial", json!(distinct.len() + by_bytes.len()));
     run.set("exhaustive", json!(true));
@@ -784,6 +836,6 @@ pub fn c16(tier: Tier) -> i32 {
         {"signed_bytes_example": signed[5].0, "hex": hex::encode(&signed[5].1)},
         {"wire_example": serde_json::to_value(common_msgs::AddAppointmentRequest { appointment: Some(common_msgs::Appointment { locator: vec![7; 16], encrypted_blob: vec![9; 3], to_self_delay: 5 }), signature: "sig".into() }).unwrap()},
     ]));
-    run.set("rule", json!("finite grid, fully enumerated: the client's real send_appointment / register / post_request / process_post_response against the real warp router in front of a recording gRPC service; what the tower parsed is compared field by field with what the client sent, and what the client parsed with what the tower emitted; locators x blob lengths x u32 boundary values x signature strings (one dimension varied at a time around a base point), both get_appointment reply shapes x every status, 0/1/many locators; JSON round trip of every message type; pairwise injectivity of the signed byte strings of appointments and both receipts over the grid. distinct = distinct messages + distinct signed byte strings"));
+    run.set("rule", json!("finite grid, fully enumerated: the client's real send_appointment / register / post_request / process_post_response against the real warp router in front of a recording gRPC service; what the tower parsed is compared field by field with what the client sent, and what the client parsed with what the tower emitted; locators x blob lengths x u32 boundary values x signature strings (one dimension varied at a time around a base point), both get_appointment reply shapes x every status, 0/1/many locators; the real tower's replies for a watched and for a responded appointment (penalty with witness data) parsed by the client and compared with what the tower holds (ids, raw transaction, id of the raw transaction); JSON round trip of every message type; pairwise injectivity of the signed byte strings of appointments and both receipts over the grid. distinct = distinct messages + distinct signed byte strings"));
     run.finish()
 }
